@@ -150,6 +150,8 @@ type Interp struct {
 	varsMemo    map[int][]*Term
 	secScaled  map[int]*Term // Duration terms that are seconds*1e9 without overflow -> the seconds term
 	InitProblems []string
+	writeMark    int // object ids below this were allocated before vpWriteSetBegin
+	sharedWrites int
 	decProv  map[string]*Term
 }
 
@@ -311,6 +313,7 @@ func (in *Interp) RunPath(unit string, fn *ssa.Function, prefix []Decision) (res
 	in.pathVars = in.pathVars[:0]
 	in.resetPC()
 	in.secScaled = map[int]*Term{}
+	in.writeMark, in.sharedWrites = 0, 0
 	in.unit = unit
 	in.ufCalls = map[string][]ufCall{}
 	in.decProv = map[string]*Term{}
